@@ -345,10 +345,16 @@ def step (st : St) (line : String) : St × String :=
       if out = "panic" ∨ out = "hang" then (st, s!"ORA {name}: {out} in a derived structure codec") else
       if name = "enc" then
         let slots := " ".intercalate args
+        -- the round trip is demanded for the values `from_tlv` can produce: a flags value holding undeclared
+        -- bits (`from_bits_retain`) is written by the real encoder like any integer (`encodeReal`, compared
+        -- below) but is outside the claim (`encodeVal` refuses it; theorem `bitflags_undefined_rejected`)
+        let inClaim : Bool := match st.sty with
+          | some ty => (TlvSchema.encodeText ty args).isSome
+          | none => true
         let st' := match okPayload out with
-          | some h => { st with encoded := (h, slots) :: st.encoded }
+          | some h => if inClaim then { st with encoded := (h, slots) :: st.encoded } else st
           | none => st
-        match st.sty.bind (fun ty => TlvSchema.encodeText ty args) with
+        match st.sty.bind (fun ty => TlvSchema.encodeRealText ty args) with
         | some b => if "ok:" ++ hex b = out then (st', "ok") else
             (if (okPayload out).isNone then (st', s!"ORA enc: derived encoder rejected an in-range value ({out})") else (st', s!"DIS ok:{hex b}"))
         | none => (st', "BAD slots")
